@@ -233,7 +233,7 @@ class HashSeedEngine(Engine):
                            "subs": subs}}
 
     def _gen_pipeline(self, rng) -> Dict[str, Any]:
-        from sim.world.pipeline import DETECTION_PROFILES, DOMAIN_PROFILES, MAIN_DOMAINS, module_layout
+        from sim.world.pipeline import DETECTION_PROFILES, DOMAIN_PROFILES, MAIN_DOMAINS, PFAM_PROFILES, module_layout
         records = []
         hits = []
         domain_hits = []
@@ -309,7 +309,24 @@ class HashSeedEngine(Engine):
         extra: List[str] = []
         if rng.random() < 0.3:
             extra += ["--hmmdetection-strictness", rng.choice(["strict", "loose"])]
-        return {"records": records, "hits": hits, "domain_hits": {"nrpspksdomains.hmm": domain_hits, "ksdomains.hmm": subtype_hits},
+        # HMMer based domain annotation (Pfam) of clusters / the whole record, and the GO term mapping on top
+        pfam_hits = []
+        if rng.random() < 0.5:
+            extra += rng.choice([["--clusterhmmer"], ["--clusterhmmer", "--pfam2go"], ["--fullhmmer"],
+                                 ["--clusterhmmer", "--fullhmmer", "--pfam2go"]])
+            names = sorted(PFAM_PROFILES)
+            for record in records:
+                for gene in record["genes"]:
+                    aa = (gene["parts"][0][1] - gene["parts"][0][0]) // 3
+                    for _ in range(rng.choice([0, 1, 1, 2, 3])):
+                        start = rng.choice([2, 10, 10, 40])
+                        end = start + rng.choice([30, 30, 45])
+                        if end >= aa:
+                            continue
+                        pfam_hits.append({"cds": gene["name"], "profile": rng.choice(names), "start": start, "end": end,
+                                          "bitscore": rng.choice([30.0, 30.0, 55.0]), "evalue": rng.choice([1e-8, 1e-8, 1e-3])})
+        return {"records": records, "hits": hits, "domain_hits": {"nrpspksdomains.hmm": domain_hits, "ksdomains.hmm": subtype_hits,
+                                                                 "Pfam-A.hmm": pfam_hits},
                 "domain_lengths": lengths, "extra_args": extra}
 
     # ------------------------------------------------------------ children
@@ -436,7 +453,7 @@ class HashSeedEngine(Engine):
         seeds = hash_seeds(seed, k)
         per_child = max(1, jobs // k)
         concurrent_children = max(1, min(k, jobs // per_child))
-        outdir = tempfile.mkdtemp(prefix="c17_batch_", dir=os.environ.get("VERIF_SCRATCH_PARENT", "/tmp"))
+        outdir = tempfile.mkdtemp(prefix="c17_batch_", dir=os.environ.get("VERIF_SCRATCH", "/tmp"))
         child_cfg = {key: val for key, val in cfg.items() if key != "expected_probes"}
         started = time.time()
         procs: List[Any] = []
